@@ -404,6 +404,34 @@ func ExpectedOPRRewards(a Acts, b *BlockSpec, prev []string) ([]rewardRow, error
 	return out, nil
 }
 
+// ExpectedWinnerAssets gives the asset values of the winning OPR by an independent grading run
+// (nil when the block has no winner).
+func ExpectedWinnerAssets(a Acts, b *BlockSpec, prev []string) map[string]uint64 {
+	if len(b.OPR) == 0 {
+		return nil
+	}
+	g, err := grader.NewGrader(OPRVersionAt(a, b.Height), int32(b.Height), prev)
+	if err != nil {
+		return nil
+	}
+	for _, e := range b.OPR {
+		ext := make([][]byte, len(e.ExtIDs))
+		for i := range e.ExtIDs {
+			ext[i] = e.ExtIDs[i]
+		}
+		g.AddOPR(e.Hash[:], ext, e.Content)
+	}
+	ws := g.Grade().Winners()
+	if len(ws) == 0 {
+		return nil
+	}
+	out := map[string]uint64{}
+	for _, x := range ws[0].OPR.GetOrderedAssetsUint() {
+		out[x.Name] = x.Value
+	}
+	return out
+}
+
 // ExpectedSPRRewards does the same for staking records; top is the committed top-100 PEG list.
 func ExpectedSPRRewards(a Acts, b *BlockSpec, top [][]byte) ([]rewardRow, error) {
 	if len(b.SPR) == 0 || b.Height < a.V20 {
